@@ -156,7 +156,7 @@ Theorem C17_rotation_partial : forall batch (rot_name : path -> stamp -> path) k
   List.concat (map snd (segs ws)) = map snd ws.
 Proof.
   intros batch rot_name k pre clock ws Hk Hpre.
-  exact (rotation_keeps_everything writer_shapes batch eq_refl rot_name k Hk pre clock ws).
+  exact (rotation_keeps_everything writer_shapes batch eq_refl rot_name k Hk pre Hpre clock ws).
 Qed.
 
 (* finding C17-rotation-same-second: paths A B A B A, the three rotations stamped with the same second: the second
